@@ -46,6 +46,8 @@ func (c02) Thresholds(tier string) map[string]int64 {
 		"context:command":           1000,
 		"table-rows":                500,
 		"expressions-evaluated-twice-by-one-runner": 8000,
+		"side-effecting-operand-or-argument":        2000,
+		"stacked-unary-operators":                   10,
 		"special-operand:nan":                       50,
 		"special-operand:inf":                       50,
 		"special-operand:-0":                        20,
@@ -76,7 +78,7 @@ func (c02) Exhaustive(tier string) (bool, string) {
 }
 
 func (c02) Rule() string {
-	return "case 0 = the complete operator table (every binary operator x every ordered pair of operand types, every unary operator x every type, operands as literals and as variables pre-loaded through the store so that -0, NaN and +-Inf occur). Every other case = 30 random typed expression trees (depth <=6) over literals, pre-loaded variables, built-ins and logged probe calls p(id,v); each tree is printed three ways (minimal parentheses by the grammar's precedence/associativity, fully parenthesised, minimal + redundant parentheses) with a PRNG operator spelling per occurrence, and one tree in four gets one planted ill-typed leaf at a PRNG position. Each printing is placed in one of: <<call cap(id, E)>>, a line {E}, <<set $r to E>>, <<if E>>, a command argument {E}. Half of the scripts loop once through a jump so that the same runner evaluates every statement twice on the same parsed tree. Oracle: the reference evaluator - typed value (bit-exact, any NaN = any NaN), error/no error, and the ordered log of probe invocations (short-circuit, left-to-right single evaluation). Non-trivial: >=2 operators of different precedence levels, or a short-circuit that skips a probe, or a planted fault that is reached. Distinct by hash of the printed expression."
+	return "case 0 = the complete operator table (every binary operator x every ordered pair of operand types, every unary operator x every type, operands as literals and as variables pre-loaded through the store so that -0, NaN and +-Inf occur). Every other case = 30 random typed expression trees (depth <=6) over literals, pre-loaded variables, built-ins and logged probe calls p(id,v); each tree is printed three ways (minimal parentheses by the grammar's precedence/associativity, fully parenthesised, minimal + redundant parentheses) with a PRNG operator spelling per occurrence, and one tree in four gets one planted ill-typed leaf at a PRNG position; four more expressions per case use bump(), a host function that increments a variable through the store, next to reads of that variable, so that the order in which operands and arguments are evaluated is observable. Each printing is placed in one of: <<call cap(id, E)>>, a line {E}, <<set $r to E>>, <<if E>>, a command argument {E}. Half of the scripts loop once through a jump so that the same runner evaluates every statement twice on the same parsed tree, the second time with other values in the variables. Oracle: the reference evaluator - typed value (bit-exact, any NaN = any NaN), error/no error, and the ordered log of probe invocations (short-circuit, left-to-right single evaluation). Non-trivial: >=2 operators of different precedence levels, or a short-circuit that skips a probe, or a planted fault that is reached. Distinct by hash of the printed expression."
 }
 
 func (c02) Assumptions() []string {
@@ -180,7 +182,7 @@ var c02Pre = map[string]model.Val{
 	"nan": model.N(math.NaN()), "inf": model.N(math.Inf(1)), "ninf": model.N(math.Inf(-1)), "big": model.N(1e300),
 	"b1": model.B(true), "b2": model.B(false),
 	"s1": model.S("left"), "s2": model.S(""), "s3": model.S("Ünï"),
-	"pass": model.N(0),
+	"pass": model.N(0), "cnt": model.N(0),
 }
 
 func c02Scope(id *int) *gen.Scope {
@@ -256,6 +258,31 @@ func (p c02) Run(c *core.Ctx) {
 			}
 		}
 	}
+	if c.Idx != 0 {
+		// evaluation order made observable through a side effect on the store
+		for k := 0; k < 4; k++ {
+			var e *hast.Expr
+			switch r.Intn(6) {
+			case 0:
+				e = hast.Call("p", hast.Call("bump"), hast.Var("cnt"))
+			case 1:
+				e = hast.Bin("+", hast.Bin("*", hast.Call("bump"), hast.Num("100")), hast.Var("cnt"))
+			case 2:
+				e = hast.Bin("-", hast.Var("cnt"), hast.Bin("*", hast.Call("bump"), hast.Num("100")))
+			case 3:
+				e = hast.Call("p", hast.Var("cnt"), hast.Bin("+", hast.Call("bump"), hast.Var("cnt")))
+			case 4:
+				e = hast.Call("p", hast.Call("p", hast.Num("1"), hast.Call("bump")), hast.Bin("+", hast.Var("cnt"), hast.Call("bump")))
+			default:
+				e = hast.Bin("+", hast.Bin("+", hast.Var("cnt"), hast.Call("bump")), hast.Bin("*", hast.Var("cnt"), hast.Call("bump")))
+			}
+			lay := &hast.Layout{Paren: r.Intn(3), Spell: true, R: r.Fork(), Stats: map[string]int{}}
+			st, ctx := wrapExpr(r, e, hast.TNum, &id, lay)
+			items = append(items, exprItem{stmt: st, printed: lay.Expr(e), kind: []string{"minimal", "full", "redundant"}[lay.Paren], levels: 2})
+			c.Feature("context:" + ctx)
+			c.Feature("side-effecting-operand-or-argument")
+		}
+	}
 	p.runItems(c, items)
 }
 
@@ -297,6 +324,12 @@ func (c02) table(c *core.Ctx, id *int) []exprItem {
 		for _, o := range operands[t] {
 			add(hast.Neg(o), t)
 			add(hast.Not(o), t)
+			// stacked unary operators (an even stack must not cancel out the type check)
+			add(hast.Neg(hast.Neg(o)), t)
+			add(hast.Not(hast.Not(o)), t)
+			add(hast.Neg(hast.Not(o)), t)
+			add(hast.Not(hast.Neg(hast.Neg(o))), t)
+			c.Feature("stacked-unary-operators")
 		}
 	}
 	return items
@@ -337,7 +370,17 @@ func (c02) runItems(c *core.Ctx, items []exprItem) {
 				// the same runner evaluates every statement a second time (same parsed tree)
 				body = append(body, &hast.Stmt{K: hast.SIf, Clauses: []*hast.Clause{{
 					Cond: hast.Bin("<", hast.Var("pass"), hast.Num("1")),
-					Body: []*hast.Stmt{{K: hast.SSet, Var: "pass", Op: "+=", X: hast.Num("1")}, {K: hast.SJump, Target: "Start"}},
+					Body: []*hast.Stmt{
+						{K: hast.SSet, Var: "pass", Op: "+=", X: hast.Num("1")},
+						// the second pass sees other values in the variables
+						{K: hast.SSet, Var: "n1", Op: "+=", X: hast.Num("1.5")},
+						{K: hast.SSet, Var: "n2", Op: "*=", X: hast.Num("2")},
+						{K: hast.SSet, Var: "b1", Op: "=", X: hast.Not(hast.Var("b1"))},
+						{K: hast.SSet, Var: "b2", Op: "=", X: hast.Not(hast.Var("b2"))},
+						{K: hast.SSet, Var: "s1", Op: "+=", X: hast.Str("!")},
+						{K: hast.SSet, Var: "s2", Op: "=", X: hast.Str("second")},
+						{K: hast.SJump, Target: "Start"},
+					},
 				}}})
 			}
 			body = append(body, &hast.Stmt{K: hast.SLine, Parts: []hast.Part{hast.Lit("done")}})
@@ -439,6 +482,8 @@ func noLogFuncs() map[string]model.Fn {
 			return a[0], true, nil
 		},
 		"hfail": func(a []model.Val) (model.Val, bool, error) { return model.None, false, fmt.Errorf("hfail") },
+		// (the trial run only looks for the first failing statement; bump never fails)
+		"bump": func(a []model.Val) (model.Val, bool, error) { return model.N(1), true, nil },
 	}
 }
 
